@@ -9,7 +9,7 @@ seeds="$*"; [ -z "$seeds" ] && seeds=$(ls /verif/seeded)
 for s in $seeds; do
   p=$(python3 -c "import json;print(json.load(open('/verif/seeded/$s/meta.json'))['property'])")
   git -C $W apply /verif/seeded/$s/patch.diff || { echo "$s: PATCH DOES NOT APPLY"; continue; }
-  out=$(/verif/bin/gosmt check -repo $W -prop $p -tier quick -harness /verif/harness -known /verif/known_findings.json -replaydir /tmp/seed_replay_all -out /tmp/seed_ev_all.json 2>&1 | tail -1)
+  out=$(VP_RUN_REPO=$W VERIF_EVIDENCE_DIR=/tmp/seed_ev_all VERIF_REPLAY_DIR=/tmp/seed_replay_all /verif/check $p 2>&1 | grep "harnesses held" | tr '\n' ' ')
   echo "$s [$p]: $out"
   git -C $W checkout -q -- .
 done
